@@ -62,7 +62,11 @@ PROPS["C01"] = {
 PROPS["C02"] = {
     "modules": ["Hertz.Props.C02"],
     "rule": "250 (quick) / 6000 (thorough) streams of <=420 bytes, each under EVERY two-way split, byte-wise delivery and random k-way splits, "
-            "plus longer streams under random splits; every run must equal the model's single answer for the concatenation.",
+            "plus longer streams under random splits; every run must equal the model's single answer for the concatenation. X02: 50 (quick) / 1200 "
+            "(thorough) fold-heavy header blocks (continuation lines of blanks only, tabs, CR CR LF, several folds, folds in the last header, colon in a "
+            "continuation line, bytes behind the block) under EVERY cut: scanner on the prefix, on its edited bytes plus the rest, on the whole, on the "
+            "edited whole again (fields, HLen and the buffer bytes compared); the resp/req/trailer readers on every prefix, and on the whole block in two reads "
+            "at every cut, with the connection buffer read back.",
     "exhaustive_note": "all two-way split points of each generated stream are enumerated",
     "level_text": "The model is a function of the concatenated stream; the real server is run under all two-way splits and byte-wise delivery of each stream "
                   "and must match it. Theorems: stability of the header-block completeness pre-check and of delimiter positions under appended bytes.",
@@ -579,9 +583,19 @@ _upd("C02", "Proved for all inputs (Props/C02, 21 theorems): a request head, a f
      "need-more read and parse again' equals parsing the whole for every segmentation (retry_eq_whole_segments, "
      "client_read_segmentation_invariant); handled requests are never revised by later bytes (served_prefix_stable).",
      "Client-side (response) segmentation is covered under C11.",
-     "The in-place edits the real scanner makes in the connection buffer are not part of the model: on the request side they are shown "
-     "irrelevant (needMore_after_precheck_never_ok), on the client side re-scanning after edits is covered by the split runs only (this is "
-     "where two repaired defects of the obs-fold compaction were found). Body-reader error verdicts other than too-large are not claimed "
+     "The in-place edits the real scanner makes in the connection buffer ARE part of the model since X02 (Model/Http1/ScanEdit: key "
+     "canonicalised where it lies, folded value compacted and right aligned, retry = scan(edit(buf) ++ more)); the model's buffer is compared "
+     "byte for byte with the real one (ops scanblk / hdrbuf: the public HeaderScanner and the real resp/req/trailer readers on the real "
+     "standard.Conn, every cut of fold-heavy header blocks). Proved for all buffers: the edits are confined to the consumed bytes, bytes "
+     "behind them and bytes appended later are untouched (edit_prefix_local, edit_appended_untouched), the answers are those of the pure "
+     "scanner (edit_answer_is_scan), scanning the edited buffer again changes nothing - same fields, stop, consumed count, buffer "
+     "(edit_idempotent, edit_preserves_reading, trailer_second_pass_writes_nothing). 'Rescan after edit = one scan of the whole' is FALSE "
+     "of the code as it stands (rescan_after_edit_eq_whole_fails_at; known finding obsfold-compacted-before-complete, found while stating "
+     "the theorem) and proved for every buffer and every segmentation under the hypothesis that no retry stage compacted a value whose "
+     "look-ahead ended at the end of the buffer (rescan_after_edit_eq_whole_partial, rescan_after_edit_eq_whole_segments); the excluded "
+     "region is exactly the known-finding class; lifted to the header objects (resp_headers_rescan_partial, trailer_rescan_partial) and "
+     "to the whole response head with its first line (resp_head_rescan_partial), the resp.ReadHeader loop over any number of reads "
+     "(client_read_with_edits_segmentation_invariant) and the whole ext.parseTrailer (trailer_parse_rescan_partial). Body-reader error verdicts other than too-large are not claimed "
      "stable (a stream cut inside a chunk-size line is 'bad' only because it ended there).")
 _upd("C03", "Also proved for all inputs: every chunk size the reader accepts is below 2^63 (parsed_chunk_size_is_int, over the regenerated "
      "digit bound), and with a body limit configured no request whose body exceeds it ever reaches a handler (oversize_never_handled).")
